@@ -1,4 +1,6 @@
 import ZCV.Lemmas.Include
+import ZCV.Lemmas.IncludeGen
+import ZCV.Lemmas.IncludeGenEx
 /-!
 # C06 — `%include` behaves as textual inclusion of a self-contained fragment
 -/
@@ -38,5 +40,215 @@ theorem C06_stray_close_rejected (fuel : Nat) (env : Env) (active : List Str) (u
     (h : ∃ l r, F = l :: r ∧ lineShape (strip l) = .close ty) :
     ∃ e, parseLines fuel env rec0 active url F n st = .error (.cfg e) ∧ e.kind = .syntax :=
   include_stray_close_rejected fuel env active url F ty n st hstack h
+
+/-! ## Generalisations: references in the argument, nested `%include`s, relative resolution, flow of definitions
+
+`incgenNoLimit r` (`ZCV/Lemmas/IncludeGen.lean`): the result `r` is not one of the two refusals that depend on HOW a resource is
+reached rather than on what it contains — the recursion budget of the model is exhausted (`RecursionError`), or the
+resource is already being read ("resource includes itself").  The concrete texts of the examples are in
+`ZCV/Lemmas/IncludeGenEx.lean`. -/
+
+/-- **Textual inclusion, with references in the argument.**  As `C06_include_eq_inline`, but the argument of `%include`
+    may contain `$` references: `hprep` says that with the definitions in force when the line is reached (those `A` leaves,
+    whatever `A` contains — `%define`s, `%include`s …) the argument expands to some `a` that resolves, against the URL of
+    the including resource, to `u`.  If `A` is rejected both texts are.  (`F` itself contains no `%include`: see the next
+    theorem.) -/
+theorem C06_include_eq_inline_subst (fuel : Nat) (env : Env) (active : List Str) (url : Option Str)
+    (A F B : List Str) (inc arg u : Str) (n : Nat) (st : PS (List Ev0))
+    (hshape : lineShape (strip inc) = .include_ arg)
+    (hprep : ∀ sA, runLines (fuel + 1) env rec0 active url A n st = .ok sA →
+      ∃ a, replace env sA.defs url (n + A.length + 1) (strip arg) = .ok a ∧ env.resolve url a = .url u)
+    (hfile : env.res u = some F)
+    (hact : u ∉ active)
+    (hbal : Balanced F) (hni : NoInclude F) :
+    outcome (parseLines (fuel + 1) env rec0 active url (A ++ [inc] ++ B) n st) =
+    outcome (parseLines (fuel + 1) env rec0 active url (A ++ F ++ B) n st) :=
+  incgen_inline_subst fuel env active url A F B inc arg u n st hshape hprep hfile hact hbal hni
+
+/-- **Textual inclusion, to any include depth.**  The fragment `F` may itself contain `%include` lines, whose targets may
+    contain more, to any depth; its argument may contain references (`hprep` as above).  Two side conditions, both about
+    the text WITH the `%include` line:
+    * `hrel` — if `F` contains `%include` lines, their arguments resolve against the fragment's URL as they do against the
+      includer's (the inlined copy is read under the includer's URL; for a real `urljoin` this holds when fragment and
+      includer are in the same directory — see `IncEx.inlined_outside_fails` for what happens otherwise);
+    * `hnl` — the including text is not refused for want of fuel or for an include cycle ("enough fuel, no cycle", stated
+      on the result: if it succeeds, or fails for any other reason, the hypothesis holds).
+    Then both texts give the same events, definitions and open sections, or both are rejected.  Fuel: `fuel + 1` on both
+    sides; the fragment's lines are read with `fuel` on the left and `fuel + 1` on the right, and the proof shows that the
+    extra unit (and the shorter list of active resources) changes nothing (`C06_fuel_irrelevant`). -/
+theorem C06_include_eq_inline_nested (fuel : Nat) (env : Env) (active : List Str) (url : Option Str)
+    (A F B : List Str) (inc arg u : Str) (n : Nat) (st : PS (List Ev0))
+    (hshape : lineShape (strip inc) = .include_ arg)
+    (hprep : ∀ sA, runLines (fuel + 1) env rec0 active url A n st = .ok sA →
+      ∃ a, replace env sA.defs url (n + A.length + 1) (strip arg) = .ok a ∧ env.resolve url a = .url u)
+    (hfile : env.res u = some F)
+    (hact : u ∉ active)
+    (hbal : Balanced F)
+    (hrel : ∀ l ∈ F, ∀ arg', lineShape (strip l) = .include_ arg' → ∀ a, env.resolve (some u) a = env.resolve url a)
+    (hnl : incgenNoLimit (parseLines (fuel + 1) env rec0 active url (A ++ [inc] ++ B) n st)) :
+    outcome (parseLines (fuel + 1) env rec0 active url (A ++ [inc] ++ B) n st) =
+    outcome (parseLines (fuel + 1) env rec0 active url (A ++ F ++ B) n st) :=
+  incgen_inline_nested fuel env active url A F B inc arg u n st hshape hprep hfile hact hbal hrel hnl
+
+/-- in particular: if the text with the `%include` line is accepted, so is the inlined text, with the same outcome -/
+theorem C06_include_eq_inline_nested_ok (fuel : Nat) (env : Env) (active : List Str) (url : Option Str)
+    (A F B : List Str) (inc arg u : Str) (n : Nat) (st s : PS (List Ev0))
+    (hshape : lineShape (strip inc) = .include_ arg)
+    (hprep : ∀ sA, runLines (fuel + 1) env rec0 active url A n st = .ok sA →
+      ∃ a, replace env sA.defs url (n + A.length + 1) (strip arg) = .ok a ∧ env.resolve url a = .url u)
+    (hfile : env.res u = some F)
+    (hact : u ∉ active)
+    (hbal : Balanced F)
+    (hrel : ∀ l ∈ F, ∀ arg', lineShape (strip l) = .include_ arg' → ∀ a, env.resolve (some u) a = env.resolve url a)
+    (hok : parseLines (fuel + 1) env rec0 active url (A ++ [inc] ++ B) n st = .ok s) :
+    outcome (parseLines (fuel + 1) env rec0 active url (A ++ F ++ B) n st) = some (s.ctx, s.defs, s.stack) := by
+  rw [← incgen_inline_nested fuel env active url A F B inc arg u n st hshape hprep hfile hact hbal hrel
+    (by rw [hok]; exact incgenNoLimit_ok _), hok]
+  rfl
+
+/-- **Textual inclusion, to any include depth — from the inlined text.**  The converse reading: the side condition is about
+    the INLINED text.  `hnl`: read with `u` counted among the resources being read (so that it may not itself reach `u`:
+    no cycle through the fragment), the inlined text is not refused for want of fuel or for an include cycle.  Then the
+    text with the `%include` line, given one more unit of fuel (the fragment sits one level deeper), has the same outcome
+    as the inlined text.  Together with `C06_include_eq_inline_nested`: the two texts are accepted or rejected alike, with
+    the same events and definitions, as soon as either of them is read with enough fuel and meets no cycle. -/
+theorem C06_include_eq_inline_nested_rev (fuel : Nat) (env : Env) (active : List Str) (url : Option Str)
+    (A F B : List Str) (inc arg u : Str) (n : Nat) (st : PS (List Ev0))
+    (hshape : lineShape (strip inc) = .include_ arg)
+    (hprep : ∀ sA, runLines (fuel + 1) env rec0 (u :: active) url A n st = .ok sA →
+      ∃ a, replace env sA.defs url (n + A.length + 1) (strip arg) = .ok a ∧ env.resolve url a = .url u)
+    (hfile : env.res u = some F)
+    (hact : u ∉ active)
+    (hbal : Balanced F)
+    (hrel : ∀ l ∈ F, ∀ arg', lineShape (strip l) = .include_ arg' → ∀ a, env.resolve (some u) a = env.resolve url a)
+    (hnl : incgenNoLimit (parseLines (fuel + 1) env rec0 (u :: active) url (A ++ F ++ B) n st)) :
+    outcome (parseLines (fuel + 2) env rec0 active url (A ++ [inc] ++ B) n st) =
+    outcome (parseLines (fuel + 1) env rec0 active url (A ++ F ++ B) n st) :=
+  incgen_inline_nested_rev fuel env active url A F B inc arg u n st hshape hprep hfile hact hbal hrel hnl
+
+example (fuel : Nat) :
+    outcome (parseLines (fuel + 2) IncEx.env rec0 [] IncEx.ut (IncEx.A ++ ["%include $n".toList] ++ IncEx.B) 0 IncEx.s0) =
+    outcome (parseLines (fuel + 1) IncEx.env rec0 [] IncEx.ut (IncEx.A ++ IncEx.F ++ IncEx.B) 0 IncEx.s0) :=
+  IncEx.nested_rev_instance fuel
+
+/-- the hypotheses are satisfiable by a text with a reference in the argument (`%include $n`), a nested `%include` in the
+    fragment, and definitions flowing both ways; the conclusion then gives the outcome of the inlined text -/
+example (fuel : Nat) :
+    outcome (parseLines (fuel + 2) IncEx.env rec0 [] IncEx.ut (IncEx.A ++ IncEx.F ++ IncEx.B) 0 IncEx.s0) =
+      some ([.value "j".toList "2f".toList, .value "i".toList "2".toList], IncEx.dny, []) :=
+  IncEx.inlined_outcome fuel
+
+/-- **Fuel is irrelevant once sufficient** (any context).  If a parse with fuel `f` and active resources `active` ends —
+    accepted or rejected — without exhausting the recursion budget and without meeting a resource that is already being
+    read, then with any larger fuel and any smaller set of active resources it ends in exactly the same way (same state,
+    or the very same error). -/
+theorem C06_fuel_irrelevant {σ} (env : Env) (c : PCtx σ) (f f' : Nat) (active active' : List Str) (url : Option Str)
+    (lines : List Str) (n : Nat) (st : PS σ) (hle : f ≤ f') (hsub : ∀ w, w ∈ active' → w ∈ active)
+    (hnl : incgenNoLimit (parseLines f env c active url lines n st)) :
+    parseLines f' env c active' url lines n st = parseLines f env c active url lines n st :=
+  incgen_mono env c f f' active active' url lines n st hle hsub hnl
+
+/-- **Relative references are resolved against the URL of the including resource.**  An `%include` line on line `line` of
+    the resource `url` (any context that supports `%include`): the argument is expanded with the definitions in force,
+    and what is opened is `env.resolve url a` — `url` being the URL of the resource that CONTAINS the line.  The target
+    is then read by a parser of its own whose URL is `some u` (so that ITS `%include` lines resolve against `u`), at line
+    0, with no open section, `u` added to the resources being read, on the includer's context and definitions; the
+    includer goes on with the context and definitions that come back, its own open sections untouched. -/
+theorem C06_relative_to_includer {σ} (fuel : Nat) (env : Env) (c : PCtx σ) (active : List Str) (url : Option Str) (line : Nat)
+    (l arg a u : Str) (F : List Str) (st : PS σ)
+    (hshape : lineShape l = .include_ arg) (hci : c.canInclude = true)
+    (hrep : replace env st.defs url line (strip arg) = .ok a)
+    (hres : env.resolve url a = .url u) (hfile : env.res u = some F) (hact : u = [] ∨ u ∉ active) :
+    stepLine (fuel + 1) env c active url line l st =
+      parseLines fuel env c (u :: active) (some u) F 0 { ctx := st.ctx, stack := [], defs := st.defs } >>= fun sub =>
+        .ok { st with ctx := sub.ctx, defs := sub.defs } :=
+  incgen_include_found fuel env c active url line l arg a u F st hshape hci hrep hres hfile hact
+
+/-- … in particular for a nested `%include` it is the FRAGMENT's URL, not the top resource's.  The resource `url`
+    includes `u1` (= `resolve url a1`), whose lines are `P ++ inc2 :: Q`; `inc2` is an `%include` whose argument expands
+    to `a2`: what is opened is `resolve (some u1) a2`, and the rest `Q` of `u1` is read, still under `some u1`, after it. -/
+theorem C06_relative_nested {σ} (fuel : Nat) (env : Env) (c : PCtx σ) (active : List Str) (url : Option Str) (line : Nat)
+    (inc1 arg1 a1 u1 : Str) (P Q : List Str) (inc2 arg2 a2 u2 : Str) (G : List Str) (st sP : PS σ)
+    (hci : c.canInclude = true)
+    (h1shape : lineShape inc1 = .include_ arg1)
+    (h1rep : replace env st.defs url line (strip arg1) = .ok a1)
+    (h1res : env.resolve url a1 = .url u1) (h1file : env.res u1 = some (P ++ inc2 :: Q)) (h1act : u1 = [] ∨ u1 ∉ active)
+    (hP : runLines (fuel + 1) env c (u1 :: active) (some u1) P 0 { ctx := st.ctx, stack := [], defs := st.defs } = .ok sP)
+    (h2shape : lineShape (strip inc2) = .include_ arg2)
+    (h2rep : replace env sP.defs (some u1) (0 + P.length + 1) (strip arg2) = .ok a2)
+    (h2res : env.resolve (some u1) a2 = .url u2) (h2file : env.res u2 = some G) (h2act : u2 = [] ∨ u2 ∉ u1 :: active) :
+    stepLine (fuel + 2) env c active url line inc1 st =
+      (parseLines fuel env c (u2 :: u1 :: active) (some u2) G 0 { ctx := sP.ctx, stack := [], defs := sP.defs } >>= fun sub2 =>
+        parseLines (fuel + 1) env c (u1 :: active) (some u1) Q (0 + P.length + 1)
+          { sP with ctx := sub2.ctx, defs := sub2.defs }) >>= fun sub =>
+        .ok { st with ctx := sub.ctx, defs := sub.defs } := by
+  rw [incgen_include_found (fuel + 1) env c active url line inc1 arg1 a1 u1 _ st h1shape hci h1rep h1res h1file h1act,
+    incgen_parse_at_include fuel env c (u1 :: active) (some u1) P Q inc2 arg2 a2 u2 G 0 (subState st) sP hP h2shape hci
+      h2rep h2res h2file h2act]
+  rfl
+
+/-- observable form: if the nested target cannot be opened, the error names `resolve (some u1) a2` -/
+theorem C06_relative_nested_missing {σ} (fuel : Nat) (env : Env) (c : PCtx σ) (active : List Str) (url : Option Str) (line : Nat)
+    (inc1 arg1 a1 u1 : Str) (P Q : List Str) (inc2 arg2 a2 u2 : Str) (st sP : PS σ)
+    (hci : c.canInclude = true)
+    (h1shape : lineShape inc1 = .include_ arg1)
+    (h1rep : replace env st.defs url line (strip arg1) = .ok a1)
+    (h1res : env.resolve url a1 = .url u1) (h1file : env.res u1 = some (P ++ inc2 :: Q)) (h1act : u1 = [] ∨ u1 ∉ active)
+    (hP : runLines fuel env c (u1 :: active) (some u1) P 0 { ctx := st.ctx, stack := [], defs := st.defs } = .ok sP)
+    (h2shape : lineShape (strip inc2) = .include_ arg2)
+    (h2rep : replace env sP.defs (some u1) (0 + P.length + 1) (strip arg2) = .ok a2)
+    (h2res : env.resolve (some u1) a2 = .url u2) (h2file : env.res u2 = none) :
+    stepLine (fuel + 1) env c active url line inc1 st =
+      .error (.cfg { kind := .plain, url := some u2, tag := "error opening" }) := by
+  rw [incgen_include_found fuel env c active url line inc1 arg1 a1 u1 _ st h1shape hci h1rep h1res h1file h1act,
+    incgen_parse_at_include_missing fuel env c (u1 :: active) (some u1) P Q inc2 arg2 a2 u2 0 (subState st) sP hP h2shape hci
+      h2rep h2res h2file]
+  rfl
+
+/-- read from outside the directory `d/`, `%include d/$n` opens `d/f`, inside which `%include g` opens `d/g` (events of
+    `d/g` arrive) — whereas the inlined copy of `d/f`, read from outside, looks for `g` and is rejected -/
+example (fuel : Nat) :
+    parseLines (fuel + 2) IncEx.env rec0 [] none (IncEx.A ++ ["%include d/$n".toList] ++ []) 0 IncEx.s0 =
+      .ok { ctx := [.value "j".toList "2f".toList], stack := [], defs := IncEx.dny } ∧
+    parseLines (fuel + 2) IncEx.env rec0 [] none (IncEx.A ++ IncEx.F ++ []) 0 IncEx.s0 =
+      .error (.cfg { kind := .plain, url := some "g".toList, tag := "error opening" }) :=
+  ⟨IncEx.parse_outside fuel, IncEx.inlined_outside_fails (fuel + 2)⟩
+
+/-- **Definitions flow in and out, in reading order** (one line).  The included resource is read with the definitions made
+    before the `%include` line (`defs := st.defs` going in); after the line the includer has the events and the
+    definitions the resource leaves behind (`sub.ctx`, `sub.defs` coming out), and its own open sections. -/
+theorem C06_definitions_flow (fuel : Nat) (env : Env) (active : List Str) (url : Option Str) (line : Nat)
+    (l arg a u : Str) (F : List Str) (st : PS (List Ev0))
+    (hshape : lineShape l = .include_ arg)
+    (hrep : replace env st.defs url line (strip arg) = .ok a)
+    (hres : env.resolve url a = .url u) (hfile : env.res u = some F) (hact : u = [] ∨ u ∉ active) :
+    outcome (stepLine (fuel + 1) env rec0 active url line l st) =
+      (outcome (parseLines fuel env rec0 (u :: active) (some u) F 0 { ctx := st.ctx, stack := [], defs := st.defs })).map
+        (fun r => (r.1, r.2.1, st.stack)) :=
+  incgen_flow_step fuel env active url line l arg a u F st hshape hrep hres hfile hact
+
+/-- **Definitions flow in and out, in reading order** (whole text).  `A`, then the `%include` line, then `B`: the fragment
+    is read with the events and definitions `A` leaves; `B` is read with the events and definitions the fragment leaves,
+    and the sections `A` left open. -/
+theorem C06_definitions_flow_text (fuel : Nat) (env : Env) (active : List Str) (url : Option Str)
+    (A F B : List Str) (inc arg u : Str) (n : Nat) (st : PS (List Ev0))
+    (hshape : lineShape (strip inc) = .include_ arg)
+    (hprep : ∀ sA, runLines (fuel + 1) env rec0 active url A n st = .ok sA →
+      ∃ a, replace env sA.defs url (n + A.length + 1) (strip arg) = .ok a ∧ env.resolve url a = .url u)
+    (hfile : env.res u = some F) (hact : u = [] ∨ u ∉ active) :
+    outcome (parseLines (fuel + 1) env rec0 active url (A ++ [inc] ++ B) n st) =
+      (runLines (fuel + 1) env rec0 active url A n st).toOption.bind fun sA =>
+        (outcome (parseLines fuel env rec0 (u :: active) (some u) F 0
+            { ctx := sA.ctx, stack := [], defs := sA.defs })).bind fun r =>
+          outcome (parseLines (fuel + 1) env rec0 active url B (n + A.length + 1)
+            { ctx := r.1, stack := sA.stack, defs := r.2.1 }) :=
+  incgen_flow fuel env active url A F B inc arg u n st hshape hprep hfile hact
+
+/-- `n` is defined before the `%include` and used two levels down (`j $y$n` in `d/g`); `y` is defined in the fragment and
+    used after the `%include` (`i $y`) -/
+example (fuel : Nat) :
+    parseLines (fuel + 2) IncEx.env rec0 [] IncEx.ut (IncEx.A ++ ["%include $n".toList] ++ IncEx.B) 0 IncEx.s0 =
+      .ok { ctx := [.value "j".toList "2f".toList, .value "i".toList "2".toList], stack := [], defs := IncEx.dny } :=
+  IncEx.parse_top fuel
 
 end ZCV.Props.C06
